@@ -38,7 +38,6 @@ def interpreter_resolve(modname, root):
     parts = modname.split('.')
     for i in range(len(parts)):
         fullname = '.'.join(parts[:i + 1])
-        importlib.invalidate_caches()
         try:
             spec = importlib.machinery.PathFinder.find_spec(fullname, search)
         except KeyError:
@@ -69,7 +68,8 @@ def run(eng, tier, seed):
     cex = None
     all_names = list(names())
     k = len(OPTIONAL)
-    subsets = range(2 ** k) if tier != 'quick' else [m for m in range(2 ** k) if bin(m).count('1') >= k - 1 or m % 211 == 0]
+    subsets = ([m for m in range(2 ** k) if m % 8 in (0, 7) or bin(m).count('1') >= k - 2] if tier != 'quick'
+               else [m for m in range(2 ** k) if bin(m).count('1') >= k - 1 or m % 211 == 0])
     try:
         for m in subsets:
             root = os.path.join(tmp, 't%d' % m)
@@ -79,6 +79,7 @@ def run(eng, tier, seed):
                     p = os.path.join(root, rel)
                     os.makedirs(os.path.dirname(p), exist_ok=True)
                     open(p, 'w').close()
+            importlib.invalidate_caches()       # the files of this tree exist now; nothing changes while it is queried
             for name in all_names:
                 expect = interpreter_resolve(name, root)
                 path_before = list(sys.path)
@@ -104,6 +105,8 @@ def run(eng, tier, seed):
                     cex = {'files': [rel for j, rel in enumerate(OPTIONAL) if m >> j & 1], 'name': name, 'problem': problem.replace(root, '<root>')}
                     break
             shutil.rmtree(root, ignore_errors=True)
+            for key in [k_ for k_ in sys.path_importer_cache if k_.startswith(root)]:
+                del sys.path_importer_cache[key]        # keep the finder cache from growing with every scratch tree
             if cex is not None:
                 break
     finally:
